@@ -71,9 +71,6 @@ def handle (toks : List String) : String :=
     | "resolve", [p] => match p.cps? with
       | some p => ok [.list ((Spec.resolve p).map V.ofCps)]
       | none => err "bad-arg"
-    | "sameSite", [p] => match p.cps? with
-      | some p => ok [V.ofBool (Spec.sameSite p)]
-      | none => err "bad-arg"
     | _, _ => err "bad-cmd"
   | _, _ => err "bad-line"
 
